@@ -156,7 +156,7 @@ func genPackTree(rng *Rng, risky bool) (*TNode, bool, string) {
 	}
 	ignore := ""
 	if rng.Chance(45) {
-		ignore = genRuleFile(rng, false)
+		ignore = genRuleFile(rng, rng.Chance(25))
 		if rng.Chance(20) {
 			// a rule ending in ** that is no whole-segment **: matches files as well as directories
 			ignore += rng.Pick([]string{"a**", "b.txt**", "c**", "e.tf**", "sub**", "d**"}) + "\n"
@@ -173,11 +173,16 @@ func genPackTree(rng *Rng, risky bool) (*TNode, bool, string) {
 		"chain": tlink("chain2"), "chain2": tlink("f"),
 		"d": tdir(0o755, map[string]*TNode{"g": tfile("outside-g", 0o644), "h": tdir(0o755, map[string]*TNode{"i": tfile("i", 0o644), "back": tlink("../../../src/a")}),
 			"nest": tlink("../../src-sib"),
-			"in":   tlink("g"), "up": tlink("../f")}),
+			"in":   tlink("g"), "up": tlink("../f"), "absin": tlink("/w/outside/d/g"), "reent": tlink("../../outside/d/g")}),
 	})
 	outside.Kids["f"].Mtime, outside.Kids["f"].MtimeN = 1300000000, 500000000
 	outside.Kids["back"] = tlink("../src/" + rng.Pick([]string{"a", "b.txt", "c"}))
 	outside.Kids["backd"] = tlink("../src/sub")
+	outside.Kids["hollow"] = tdir(0o755, nil)
+	if rng.Chance(12) {
+		src.Kids["to-hollow"] = tlink("../outside/hollow")
+		hasOutLink = true
+	}
 	if rng.Chance(15) {
 		// an external directory holding a dangling link whose text escapes at the archive position
 		outside.Kids["e"] = tdir(0o755, map[string]*TNode{"ok": tfile("e-ok", 0o644), "broken": tlink("../../gone"), "broken2": tlink("nowhere")})
@@ -189,7 +194,8 @@ func genPackTree(rng *Rng, risky bool) (*TNode, bool, string) {
 		outside.Kids["A"] = tdir(0o755, map[string]*TNode{"fa": tfile("fa", 0o644), "toB": tlink("../B")})
 		outside.Kids["B"] = tdir(0o755, map[string]*TNode{"fb": tfile("fb", 0o644), "toA": tlink("../A")})
 		if rng.Chance(50) {
-			src.Kids["to-cyc"] = tlink("../outside/A")
+			// the cycle reached by its real name, or below a linked parent directory
+			src.Kids["to-cyc"] = tlink(rng.Pick([]string{"../outside/A", "../oalias/A"}))
 		}
 		outside.Kids["loop"] = tlink("loop2")
 		outside.Kids["loop2"] = tlink("loop")
@@ -211,7 +217,8 @@ func genPackTree(rng *Rng, risky bool) (*TNode, bool, string) {
 			"deep":    tdir(0o755, map[string]*TNode{"k": tfile("k", 0o644), "x": tlink("../outside/f"), "y": tlink("k")})}),
 		"out":     tdir(0o755, nil),
 	})
-	root := tdir(0o755, map[string]*TNode{"w": w, "secret": tfile("top-secret", 0o600), "cwd2": tdir(0o755, map[string]*TNode{"rl": tlink("../w/src")})})
+	w.Kids["oalias"] = tlink("outside")
+	root := tdir(0o755, map[string]*TNode{"w": w, "wl": tlink("w"), "secret": tfile("top-secret", 0o600), "cwd2": tdir(0o755, map[string]*TNode{"rl": tlink("../w/src")})})
 	return root, hasOutLink, ignore
 }
 
@@ -223,6 +230,8 @@ var spellings = []spelling{
 	{"/w/lnk", "/w"}, {"/w/lnk", "/"}, {"lnk", "/w"}, {"/cwd2/rl", "/cwd2"}, {"/cwd2/rl", "/"},
 	// from inside the directory that out-of-tree links point into: relative link texts must not be read from here
 	{"../src", "/w/outside"}, {"/w/src", "/w/outside"}, {"/w/src", "/w/outside/d"},
+	// through a parent directory that is a symbolic link
+	{"/wl/src", "/"}, {"wl/src", "/"},
 }
 
 func lookupT(root *TNode, p string) *TNode {
@@ -523,7 +532,10 @@ func runPackCase(c *PackCase, work string, rng *Rng, ignoreText string, hasOut b
 			}
 			if (r2.Err == "") != ok || (ok && entriesKey(es2) != base) {
 				sig := []string{}
-				if strings.Contains(sp.src, "lnk") || strings.Contains(sp.src, "rl") || strings.Contains(c.Src, "lnk") || strings.Contains(c.Src, "rl") {
+				bySymlink := func(sp2 spelling) bool {
+					return strings.Contains(sp2.src, "lnk") || strings.Contains(sp2.src, "rl") || strings.Contains(sp2.src, "wl")
+				}
+				if bySymlink(sp) || bySymlink(spelling{c.Src, c.Cwd}) {
 					sig = append(sig, "source_given_by_way_of_a_symlink")
 				}
 				vs = append(vs, Violation{Property: "C16", Signatures: sig, What: fmt.Sprintf("same tree, source spelled %q from cwd %q (history %v, flags %v) gives a different slug than %q from %q: err %q vs %q", sp.src, sp.cwd, c2.History, c2.Flags, c.Src, c.Cwd, r2.Err, resp.Err)})
@@ -555,6 +567,21 @@ func runPackCase(c *PackCase, work string, rng *Rng, ignoreText string, hasOut b
 						vs = append(vs, viol("C05", fmt.Sprintf("a Packer that packed %s before stores link %q -> %q, which points outside the source directory and is not allow-listed for it", pre, name, e.Link)))
 					}
 				}
+			}
+		}
+	}
+	// ---- C16: another rule file is parsed while this Pack is under way ----
+	if !c.Risky && !c.Legacy && c.Ignore && rng.Chance(50) {
+		text := rng.Pick([]string{"only-one-rule\n", "*.never\n", "!a\nb.txt\n"})
+		r4 := runChild(&ChildReq{Op: "pack", Root: R, Src: c.Src, Cwd: c.Cwd, Deref: c.Deref, Ignore: c.Ignore,
+			Allow: c.Allow, History: c.History, Flags: c.Flags, FailAt: -1, Interleave: text}, 20*time.Second)
+		if r4.Crashed == "" && !r4.Timeout {
+			var es4 []EntrySpec
+			if len(r4.Slug) > 0 {
+				es4, _ = decodeSlug(r4.Slug)
+			}
+			if (r4.Err == "") != ok || (ok && entriesKey(es4) != entriesKey(es)) {
+				vs = append(vs, viol("C16", fmt.Sprintf("packing %q while another rule file (%q) is parsed gives a different slug (err %q vs %q)", c.Src, text, r4.Err, resp.Err)))
 			}
 		}
 	}
